@@ -55,27 +55,40 @@ func runC19(c *Ctx) {
 	for _, e := range w.dispatchTable() {
 		dispatch[e.handler] = e.method
 	}
-	for _, cs := range w.callsTo(buildMsg) {
-		fn := cs.Parent()
+	// a buildMsg call made by a forwarding helper (sendSuccess(req, id, attrs)) is judged at the
+	// helper's call sites, with the helper's parameters replaced by the arguments there
+	// the request message a function works on: its *stun.Message parameter, or — in the
+	// dispatcher — the message handed to the handler (dynamic call with 2 args)
+	requestOf := func(root *ssa.Function) ssa.Value {
+		if mp := msgParam(root); mp != nil {
+			return mp
+		}
+		var reqMsg ssa.Value
+		w.eachInstr(root, func(in ssa.Instruction) {
+			if call, ok := in.(*ssa.Call); ok && call.Call.StaticCallee() == nil && !call.Call.IsInvoke() && len(call.Call.Args) == 2 && isPtrToNamed(call.Call.Args[1].Type(), msgT) {
+				reqMsg = call.Call.Args[1]
+			}
+		})
+		return reqMsg
+	}
+	stopLift := func(fn *ssa.Function) bool {
+		if requestOf(rootOf(fn)) != nil {
+			return true
+		}
+		_, has := dispatch[rootOf(fn)]
+		return has
+	}
+	for _, lc := range w.liftCalls(buildMsg, stopLift, 3) {
+		fn := lc.fn
 		if fnPkgPath(fn) != serverPath {
 			continue
 		}
 		root := rootOf(fn)
-		pos := w.instrPos(cs)
-		tid := cs.Common().Args[0]
+		pos := w.instrPos(lc.at)
+		tid := lc.args[0]
 		tb, tf, isLoad := fieldLoad(tid)
 		c.Anchor("C19.1", fname(root))
-		var reqMsg ssa.Value
-		if mp := msgParam(root); mp != nil {
-			reqMsg = mp
-		} else {
-			// dispatcher: the message handed to the handler (dynamic call with 2 args)
-			w.eachInstr(root, func(in ssa.Instruction) {
-				if call, ok := in.(*ssa.Call); ok && call.Call.StaticCallee() == nil && !call.Call.IsInvoke() && len(call.Call.Args) == 2 && isPtrToNamed(call.Call.Args[1].Type(), msgT) {
-					reqMsg = call.Call.Args[1]
-				}
-			})
-		}
+		reqMsg := requestOf(root)
 		switch {
 		case reqMsg == nil:
 			c.Undecided("C19.1", fname(fn), "buildMsg id", pos, "cannot identify the request message of "+fname(root))
@@ -86,7 +99,7 @@ func runC19(c *Ctx) {
 		}
 		// ---- C19.3 method
 		c.Anchor("C19.3", fname(root))
-		mt := cs.Common().Args[1]
+		mt := lc.args[1]
 		nt, _ := callOf(mt)
 		if nt == nil || nt.Call.StaticCallee() != newType {
 			// a predeclared message type (stun.BindingSuccess): compare its method statically
@@ -354,6 +367,20 @@ func ruleRetransmission(c *Ctx, rule string) {
 	get := w.Func("allocation", "Manager", "GetAllocation")
 	buildMsg := w.Func("server", "", "buildMsg")
 	msgKey := w.key(h.Params[1])
+	// the buildMsg / buildAndSend calls of the handler, including those made through
+	// forwarding helpers (judged at the helper's call site in the handler, in its terms)
+	inHandler := func(fn *ssa.Function) bool { return w.partOf(fn, h) }
+	var builds, sends []liftedCall
+	for _, lc := range w.liftCalls(buildMsg, inHandler, 3) {
+		if inHandler(lc.fn) {
+			builds = append(builds, lc)
+		}
+	}
+	for _, lc := range w.liftCalls(w.Func("server", "", "buildAndSend"), inHandler, 3) {
+		if inHandler(lc.fn) {
+			sends = append(sends, lc)
+		}
+	}
 	// SetResponseCache
 	n := 0
 	w.eachInstr(h, func(in ssa.Instruction) {
@@ -367,18 +394,14 @@ func ruleRetransmission(c *Ctx, rule string) {
 		okID := isL && tf.Name() == "TransactionID" && w.key(tb) == msgKey
 		// the attrs must be the base of the append passed to the success buildMsg
 		okAttrs := false
-		w.eachInstr(h, func(in2 ssa.Instruction) {
-			b, ok := in2.(*ssa.Call)
-			if !ok || b.Call.StaticCallee() != buildMsg {
-				return
+		for _, b := range builds {
+			if !isSuccessType(w, b.args[1]) {
+				continue
 			}
-			if !isSuccessType(w, b.Call.Args[1]) {
-				return
-			}
-			if appendBase(b.Call.Args[2]) != nil && w.sameKey(appendBase(b.Call.Args[2]), call.Call.Args[2]) {
+			if ab := appendBase(b.args[2]); ab != nil && (w.sameKey(ab, call.Call.Args[2]) || w.key(ab) == w.key(call.Call.Args[2])) {
 				okAttrs = true
 			}
-		})
+		}
 		if okID && okAttrs {
 			c.OK(rule, fname(h), "SetResponseCache", w.instrPos(in), "caches (request id, the attribute slice of the success response)")
 		} else {
@@ -391,35 +414,29 @@ func ruleRetransmission(c *Ctx, rule string) {
 	} else {
 		// every path from CreateAllocation success to a return passes SetResponseCache before a send of the success message
 		c.Anchor(rule, "cache before send")
-		bas := w.Func("server", "", "buildAndSend")
 		bad := ""
-		w.eachInstr(h, func(in ssa.Instruction) {
-			call, ok := in.(*ssa.Call)
-			if !ok || call.Call.StaticCallee() != bas {
-				return
-			}
-			bm, _ := callOf(call.Call.Args[2])
+		for _, sd := range sends {
+			call := sd.at
+			bm, _ := callOf(sd.args[2])
 			if bm == nil || bm.Call.StaticCallee() != buildMsg || !isSuccessType(w, bm.Call.Args[1]) {
-				return
+				continue
 			}
 			// is this the fresh-allocation success (its attrs come from an append of a literal slice)? then a SetResponseCache must dominate it
 			if ab := appendBase(bm.Call.Args[2]); ab != nil {
 				if gc, _ := callOf(rootOfAppendBase(w, ab)); gc != nil && gc.Call.StaticCallee() == getCache {
-					return // the retransmission path re-sends cached attrs
+					continue // the retransmission path re-sends cached attrs
 				}
 				dominated := false
-				w.eachInstr(h, func(in2 ssa.Instruction) {
-					if c2, ok := in2.(*ssa.Call); ok && c2.Call.StaticCallee() == setCache {
-						if c2.Block() == call.Block() && indexIn(c2) < indexIn(call) || (c2.Block() != call.Block() && c2.Block().Dominates(call.Block())) {
-							dominated = true
-						}
+				w.eachInstrDeep(h, func(in2 ssa.Instruction) {
+					if c2, ok := in2.(*ssa.Call); ok && c2.Call.StaticCallee() == setCache && instrDominates(c2, call) {
+						dominated = true
 					}
 				})
 				if !dominated {
 					bad = "the success response at " + w.instrPos(call) + " can be sent before/without the response cache being filled"
 				}
 			}
-		})
+		}
 		if bad == "" {
 			c.OK(rule, fname(h), "cache before send", w.pos(h.Pos()), "SetResponseCache dominates the send of the fresh success response")
 		} else {
@@ -439,10 +456,16 @@ func ruleRetransmission(c *Ctx, rule string) {
 			if eff := w.effectAt(in); eff != "" {
 				bad = "state effect (" + eff + ") at " + w.instrPos(in) + " on the path where an allocation already exists"
 			}
-			call, ok := in.(*ssa.Call)
-			if !ok || call.Call.StaticCallee() != buildMsg {
-				return
+		})
+	}
+	{
+		for _, b := range builds {
+			in := ssa.Instruction(b.at)
+			g := w.guardedBy(in, get, -1, "nonnil", func(g *ssa.Call) bool { ok, _ := w.requestTuple(g.Call.Args[1], h); return ok })
+			if g == nil {
+				continue
 			}
+			bargs := b.args
 			// facts: id == TransactionID ?
 			same := 0
 			for _, fct := range w.factsAt(in) {
@@ -461,7 +484,7 @@ func ruleRetransmission(c *Ctx, rule string) {
 					}
 				}
 			}
-			if isSuccessType(w, call.Call.Args[1]) {
+			if isSuccessType(w, bargs[1]) {
 				nSucc++
 				if same != 1 {
 					bad = "a success is built at " + w.instrPos(in) + " for an existing allocation without the cached id being equal to the request's TransactionID"
@@ -469,13 +492,14 @@ func ruleRetransmission(c *Ctx, rule string) {
 			} else {
 				nMismatch++
 				if same != -1 {
-					return
+					continue
 				}
-				if !errorCodeIs(w, call, stunConst(w, "CodeAllocMismatch")) {
+				bcall, _ := in.(*ssa.Call)
+				if bcall == nil || bcall.Call.StaticCallee() != buildMsg || !errorCodeIs(w, bcall, stunConst(w, "CodeAllocMismatch")) {
 					bad = "the mismatch path at " + w.instrPos(in) + " does not answer 437 (Allocation Mismatch)"
 				}
 			}
-		})
+		}
 	}
 	// the other side of the same test: a new allocation is created only where the lookup of
 	// this very 5-tuple found none (a weaker test — e.g. one that also looks at the user —
